@@ -84,7 +84,6 @@ class Deseasonalizer(_SeriesToSeriesTransformer):
         self : an instance of self
         """
         z = check_series(Z, enforce_univariate=True)
-        self._set_y_index(z)
         sp = check_sp(self.sp)
 
         # apply seasonal decomposition
@@ -97,6 +96,10 @@ class Deseasonalizer(_SeriesToSeriesTransformer):
             extrapolate_trend=0,
         ).seasonal.iloc[:sp]
 
+        # the phase reference belongs to the components: it is moved only once
+        # they have been estimated, so that a fit that raises does not leave an
+        # already fitted instance with new alignment and old components
+        self._set_y_index(z)
         self._is_fitted = True
         return self
 
@@ -221,7 +224,6 @@ class ConditionalDeseasonalizer(Deseasonalizer):
         """
 
         z = check_series(Z, enforce_univariate=True)
-        self._set_y_index(z)
         sp = check_sp(self.sp)
 
         # set default condition
@@ -249,5 +251,7 @@ class ConditionalDeseasonalizer(Deseasonalizer):
                 np.zeros(self.sp) if self.model == "additive" else np.ones(self.sp)
             )
 
+        # (see Deseasonalizer.fit: only after the components have been estimated)
+        self._set_y_index(z)
         self._is_fitted = True
         return self
